@@ -4,7 +4,7 @@
 From Coq Require Import ZArith List Bool Lia.
 From Low Require Import Lib.Bits Lib.BitSeq Lib.Lex Lib.Bytes Model.Sigbits Spec.SigbitsSpec Spec.ShardRouteSpec
   Proofs.SigbitsShardChecker Proofs.SigbitsLcpAll Proofs.SigbitsShard Proofs.SigbitsShardRoute
-  Proofs.SigbitsShardDomain.
+  Proofs.SigbitsShardDomain Model.Sharding32 Proofs.Sharding32Proofs.
 Import ListNotations.
 Open Scope Z_scope.
 
@@ -176,3 +176,31 @@ Proof.
   repeat (split; [vm_compute; reflexivity|]). split; [apply shard_ok_sound; vm_compute; reflexivity|].
   split; vm_compute; reflexivity.
 Qed.
+
+(** Widening: Go's int32 arithmetic made explicit (Model/Sharding32.v: [int32(len(..))], [e-s],
+    [e-1], [i+1] wrap).  When the number of keys and every key length fit into int32 the
+    int32-explicit model is the unbounded one -- over any FirstDiffBits implementation [FDB] that
+    agrees with the modelled one on the keys (so C16's int32-explicit FirstDiffBits can be plugged
+    in) -- hence the property holds of it, with the size hypotheses now explicit premises. *)
+Theorem C17_int32_model_agrees : forall FDB keys maxSize,
+  FDB keys = FirstDiffBits keys ->
+  zlen keys <= max32 -> Forall (fun k => zlen k <= max32) keys ->
+  ShardByPrefix32_with FDB keys maxSize = ShardByPrefix keys maxSize.
+Proof. exact ShardByPrefix32_eq. Qed.
+Print Assumptions C17_int32_model_agrees.
+
+Theorem C17_ShardByPrefix_int32 : forall keys maxSize,
+  keys <> [] -> keys_ok keys -> strict_asc keys -> 1 <= maxSize ->
+  zlen keys <= max32 -> Forall (fun k => zlen k <= max32) keys ->
+  exists L B, ShardByPrefix32_with FirstDiffBits keys maxSize = Some (L, B) /\
+              shard_spec keys maxSize L B /\ route_spec keys L B.
+Proof. exact ShardByPrefix32_correct. Qed.
+Print Assumptions C17_ShardByPrefix_int32.
+
+(** non-vacuity: the same output on an in-range input; and the wraps are really modelled -- for an
+    (impossible) range end beyond int32 the loop bound [e-1] wraps to 0 and the int32 loop is empty *)
+Example C17_int32_nonvacuous :
+  ShardByPrefix32_with FirstDiffBits [[97]; [97; 98; 99]; [97; 98; 100]; [97; 98; 101]] 2
+    = Some ([1; 3; 3; 3], [0; 1; 2; 3; 4]) /\
+  idx_range32 0 4294967297 = [] /\ idx_range32 0 4 = idx_range 0 4 /\ idx_range 0 4 = [0; 1; 2].
+Proof. repeat split; vm_compute; reflexivity. Qed.
